@@ -68,13 +68,13 @@ private def finishedJob (ttl : Option Int) : Job :=
 deletion timestamp, and the kill condition holds: the kill timestamp is set and `≤` the clock,
 or the parallel completion strategy is already decided against the remaining tasks
 (`shouldKillJobForParallel`), or the admission-error annotation is present (fix 4da8936). -/
-theorem kill_reason (s : Sys) (rj : Job) (tasks : List Task) :
-    ∀ c ∈ newCalls s (handleKillJob s rj tasks).1,
+theorem kill_reason (s : Sys) (jo : JobObj) (rj : Job) (tasks : List Task) :
+    ∀ c ∈ newCalls s (handleKillJob s jo rj tasks).1,
       IsPodDelete c false ∧
       (∃ t ∈ tasks, t.name = c.name ∧ isTaskFinished t = false ∧ t.deletionTimestamp = none) ∧
       ((∃ k : Int, rj.killTimestamp = some k ∧ k ≤ s.clock) ∨ shouldKillJobForParallel rj = true ∨
         rj.admissionError = true) := by
-  obtain ⟨l, e, _, hall, _⟩ := handleKillJob_ext s rj tasks
+  obtain ⟨l, e, _, hall, _⟩ := handleKillJob_ext s jo rj tasks
   intro c hc
   rw [e.newCalls] at hc
   obtain ⟨hv, hr, hf, hk, ht⟩ := hall c hc
@@ -82,50 +82,65 @@ theorem kill_reason (s : Sys) (rj : Job) (tasks : List Task) :
 
 /-- `kill_not_early`: when neither completion kill nor admission error applies, a delete issued by
 the kill step implies `killTimestamp = some k` with `k ≤ clock`. -/
-theorem kill_not_early (s : Sys) (rj : Job) (tasks : List Task)
+theorem kill_not_early (s : Sys) (jo : JobObj) (rj : Job) (tasks : List Task)
     (hpar : shouldKillJobForParallel rj = false) (hadm : rj.admissionError = false) :
-    ∀ c ∈ newCalls s (handleKillJob s rj tasks).1, ∃ k : Int, rj.killTimestamp = some k ∧ k ≤ s.clock := by
+    ∀ c ∈ newCalls s (handleKillJob s jo rj tasks).1, ∃ k : Int, rj.killTimestamp = some k ∧ k ≤ s.clock := by
   intro c hc
-  rcases (kill_reason s rj tasks c hc).2.2 with h | h | h
+  rcases (kill_reason s jo rj tasks c hc).2.2 with h | h | h
   · exact h
   · rw [hpar] at h; cases h
   · rw [hadm] at h; cases h
 
 /-- … and while the kill timestamp is unset or later than the clock (and no completion kill, no
-admission error) the kill step does nothing at all: no call, state and Job returned as they are. -/
-theorem kill_nothing_before (s : Sys) (rj : Job) (tasks : List Task)
+admission error) the kill step issues no call and returns the Job as it is; its ONLY effect on the
+state is the timer it arms for a kill timestamp that is still in the future (repair of F5; before
+it the state was returned untouched) — with no kill timestamp the state is returned untouched. -/
+theorem kill_nothing_before (s : Sys) (jo : JobObj) (rj : Job) (tasks : List Task)
     (hk : ¬ ∃ k : Int, rj.killTimestamp = some k ∧ k ≤ s.clock)
     (hpar : shouldKillJobForParallel rj = false) (hadm : rj.admissionError = false) :
-    handleKillJob s rj tasks = (s, some rj) := by
-  have : ¬ shouldKillJob s.clock rj = true := by
-    rw [shouldKillJob_iff]
-    rintro (h | h | h)
-    · exact hk h
-    · rw [hpar] at h; cases h
-    · rw [hadm] at h; cases h
-  rw [handleKillJob_eq, if_neg this]
+    handleKillJob s jo rj tasks =
+      (match rj.killTimestamp with
+        | some k => enqueueAfter s (jobKey jo) k
+        | none => s, some rj) ∧
+    newCalls s (handleKillJob s jo rj tasks).1 = [] := by
+  have hnk : shouldKillJob s.clock rj = false := by
+    cases h : shouldKillJob s.clock rj with
+    | false => rfl
+    | true =>
+      rcases (shouldKillJob_iff s.clock rj).mp h with h | h | h
+      · exact absurd h hk
+      · rw [hpar] at h; cases h
+      · rw [hadm] at h; cases h
+  refine ⟨handleKillJob_not s jo rj tasks hnk, ?_⟩
+  rw [handleKillJob_not s jo rj tasks hnk]
+  cases rj.killTimestamp with
+  | none => exact (Ext.refl s).newCalls
+  | some k => exact (enqueueAfter_ext s (jobKey jo) k).newCalls
 
-/-- `kill_nothing_before`: one nanosecond before the kill timestamp nothing is issued. -/
+/-- `kill_nothing_before`: one nanosecond before the kill timestamp no call is issued; the timer
+for the kill timestamp is armed (1 s floor of `enqueueAfter` ⇒ 91 s − 1 ns). -/
 example :
     let s := sysWith (sec 90 - 1) runningPod (jobWithKill (some (sec 90)))
-    (newCalls s (handleKillJob s (jobWithKill (some (sec 90))) [taskOf runningPod]).1) = [] := by decide
+    let jo : JobObj := ⟨"job", "u", jobWithKill (some (sec 90)), true, 1⟩
+    (newCalls s (handleKillJob s jo (jobWithKill (some (sec 90))) [taskOf runningPod]).1) = [] ∧
+    (handleKillJob s jo (jobWithKill (some (sec 90))) [taskOf runningPod]).1.q.delayed = [("ns/job", sec 91 - 1)] := by decide
 
 /-- `kill_sweeps_all`: when the kill timestamp has passed (more generally: `shouldKillJob`), every
 task of the list that is unfinished and has no deletion timestamp gets a graceful delete call —
 whatever the faults; and if no fault is pending the step succeeds with calls answered `ok` or
 `notfound`.  Whenever the step succeeds the returned Job is `killMark rj tasks`, in which every
 ref named after a swept task carries `deletedStatus = Killed`. -/
-theorem kill_sweeps_all (s : Sys) (rj : Job) (tasks : List Task)
+theorem kill_sweeps_all (s : Sys) (jo : JobObj) (rj : Job) (tasks : List Task)
     (hk : (∃ k : Int, rj.killTimestamp = some k ∧ k ≤ s.clock) ∨ shouldKillJobForParallel rj = true ∨
       rj.admissionError = true) :
     (∀ t ∈ tasks, isTaskFinished t = false → t.deletionTimestamp = none →
-      ∃ c ∈ newCalls s (handleKillJob s rj tasks).1, IsPodDelete c false ∧ c.name = t.name) ∧
-    (∀ rj', (handleKillJob s rj tasks).2 = some rj' →
+      ∃ c ∈ newCalls s (handleKillJob s jo rj tasks).1, IsPodDelete c false ∧ c.name = t.name) ∧
+    (∀ rj', (handleKillJob s jo rj tasks).2 = some rj' →
       ∀ t ∈ tasks, isTaskFinished t = false → t.deletionTimestamp = none →
         ∀ r ∈ rj'.status.tasks, r.name = t.name → r.deletedStatus = some killedStatus) ∧
-    (NoFault s → (∃ rj', (handleKillJob s rj tasks).2 = some rj') ∧
-      ∀ c ∈ newCalls s (handleKillJob s rj tasks).1, c.out = "ok" ∨ c.out = "notfound") := by
-  obtain ⟨l, e, _, hall, hon⟩ := handleKillJob_ext s rj tasks
+    (NoFault s → (∃ rj', (handleKillJob s jo rj tasks).2 = some rj') ∧
+      ∀ c ∈ newCalls s (handleKillJob s jo rj tasks).1, c.out = "ok" ∨ c.out = "notfound") := by
+  obtain ⟨l, e, _, hall, hon⟩ := handleKillJob_ext s jo rj tasks
   obtain ⟨hcov, hmark, hnf⟩ := hon ((shouldKillJob_iff s.clock rj).mpr hk)
   rw [e.newCalls]
   refine ⟨?_, ?_, ?_⟩
@@ -144,8 +159,9 @@ running task: exactly one graceful delete is issued and the ref is marked Killed
 example :
     let s := sysWith (sec 100) runningPod (jobWithKill (some (sec 90)))
     let rj := jobWithKill (some (sec 90))
-    (newCalls s (handleKillJob s rj [taskOf runningPod]).1).map brief = [("delete", "pods", "job-d-0", "ok", false)] ∧
-    ((handleKillJob s rj [taskOf runningPod]).2.map (fun j => j.status.tasks.map (·.deletedStatus))) =
+    let jo : JobObj := ⟨"job", "u", rj, true, 1⟩
+    (newCalls s (handleKillJob s jo rj [taskOf runningPod]).1).map brief = [("delete", "pods", "job-d-0", "ok", false)] ∧
+    ((handleKillJob s jo rj [taskOf runningPod]).2.map (fun j => j.status.tasks.map (·.deletedStatus))) =
       some [some killedStatus] ∧
     shouldKillJobForParallel rj = false ∧ rj.admissionError = false := by decide
 
@@ -166,7 +182,7 @@ theorem kill_sweeps_all_pass (s : Sys) (jo : JobObj) (rj rjOut : Job)
   obtain ⟨k, hkt, hkle⟩ := hk
   have hk3 : ∃ k : Int, rj3.killTimestamp = some k ∧ k ≤ s3.clock :=
     ⟨k, by rw [hs3.killTimestamp, hle.killTimestamp]; exact hkt, by rw [e3.clock]; exact hkle⟩
-  obtain ⟨c, hcm, hpd, hn⟩ := (kill_sweeps_all s3 rj3 tasks1 (Or.inl hk3)).1 t ht hf hd
+  obtain ⟨c, hcm, hpd, hn⟩ := (kill_sweeps_all s3 jo rj3 tasks1 (Or.inl hk3)).1 t ht hf hd
   rw [hkj] at hcm
   refine ⟨c, ?_, hpd, hn⟩
   rw [hcalls]
@@ -180,14 +196,79 @@ example :
     (newCalls s (syncJobTasks s ⟨"job", "u", jobWithKill (some (sec 90)), true, 1⟩ (jobWithKill (some (sec 90)))).1).map brief =
       [("delete", "pods", "job-d-0", "ok", false)] := by decide
 
-/-- `future_kill_timer` is FALSE in the model (suspected defect F5).  Universal part: the kill
-step never touches the work queue, so it arms no timer — in particular none for a kill timestamp
-that is still in the future (the pending-timeout, force-delete, retry-delay and TTL steps all
-call `enqueueAfter`; this one does not). -/
-theorem kill_step_arms_no_timer (s : Sys) (rj : Job) (tasks : List Task) :
-    (handleKillJob s rj tasks).1.q = s.q := by
-  obtain ⟨_, _, hq, _⟩ := handleKillJob_ext s rj tasks
-  exact hq
+/-- `future_kill_timer` (repair of F5; `kill_step_arms_no_timer`, which said that the kill step
+never touches the work queue, was true of the code before it and is false now).  Kill step: while
+the Job is not to be killed (`shouldKillJob` false) and its kill timestamp `k` is set — hence in
+the future — the step arms a timer for the Job's key at `k` (`dueAt`: at least 1 s ahead, the
+floor of `enqueueAfter`).  When the Job is to be killed, or has no kill timestamp, the queue is
+left as it was. -/
+theorem kill_step_arms_timer (s : Sys) (jo : JobObj) (rj : Job) (tasks : List Task) :
+    (shouldKillJob s.clock rj = false → ∀ k, rj.killTimestamp = some k →
+      handleKillJob s jo rj tasks = (enqueueAfter s (jobKey jo) k, some rj) ∧
+      TimerBy (handleKillJob s jo rj tasks).1.q (jobKey jo) (dueAt s k)) ∧
+    ((shouldKillJob s.clock rj = true ∨ rj.killTimestamp = none) → (handleKillJob s jo rj tasks).1.q = s.q) := by
+  obtain ⟨_, _, ⟨hq, harm⟩, _⟩ := handleKillJob_ext s jo rj tasks
+  refine ⟨fun hnk k hk => ⟨harm hnk k hk, ?_⟩, hq⟩
+  rw [harm hnk k hk]
+  exact enqueueAfter_timer s (jobKey jo) k
+
+/-- **`future_kill_timer_armed`** (positive counterpart of the former F5 witness).  A
+`syncJobTasks` pass — the task stage `sync` runs for a started Job that is not being deleted —
+that returns without error on a Job whose kill timestamp `k` is still in the future leaves a
+timer for the Job's key at a deadline `≤ dueAt s k` (= `k`, or 1 s after the clock if `k` is
+closer than that), whatever else the pass did and whatever timers were armed before; or else the
+kill sweep already ran in this very pass (completion decided / admission error): every task of
+the list after the creation step that is unfinished and has no deletion timestamp got its
+graceful delete call.  (A pass that returns an error is retried with back-off by `work`.) -/
+theorem future_kill_timer_armed (s : Sys) (jo : JobObj) (rj rjOut : Job) (k : Int)
+    (hok : (syncJobTasks s jo rj).2 = some rjOut)
+    (hk : rj.killTimestamp = some k) (hlt : s.clock < k) :
+    TimerBy (syncJobTasks s jo rj).1.q (jobKey jo) (dueAt s k) ∨
+    ∃ s1 rj1 tasks1, syncCreateTasks s jo rj (tasks0 s rj) = (s1, some (rj1, tasks1)) ∧
+      ∀ t ∈ tasks1, isTaskFinished t = false → t.deletionTimestamp = none →
+        ∃ c ∈ newCalls s (syncJobTasks s jo rj).1, IsPodDelete c false ∧ c.name = t.name := by
+  obtain ⟨s1, rj1, tasks1, s2, rj2, s3, rj3, s4, rj4, s5, rj5, hc, _, _, hkj, hfd, heq, hcalls, _, ⟨l3, e3⟩, _, hle, _,
+    hs3, _⟩ := syncJobTasks_success s jo rj rjOut hok
+  have hk3 : rj3.killTimestamp = some k := by rw [hs3.killTimestamp, hle.killTimestamp]; exact hk
+  cases hsk : shouldKillJob s3.clock rj3 with
+  | true =>
+    right
+    refine ⟨s1, rj1, tasks1, hc, ?_⟩
+    intro t ht hf hd
+    obtain ⟨c, hcm, hpd, hn⟩ := (kill_sweeps_all s3 jo rj3 tasks1 ((shouldKillJob_iff s3.clock rj3).mp hsk)).1 t ht hf hd
+    rw [hkj] at hcm
+    refine ⟨c, ?_, hpd, hn⟩
+    rw [hcalls]
+    simp only [List.mem_append]
+    exact Or.inr (Or.inr (Or.inl hcm))
+  | false =>
+    left
+    obtain ⟨_, htim⟩ := (kill_step_arms_timer s3 jo rj3 tasks1).1 hsk k hk3
+    rw [hkj, dueAt_of_ext e3] at htim
+    obtain ⟨_, ef, _⟩ := handleForceDelete_ext s4 jo rj4 tasks1
+    rw [hfd] at ef
+    obtain ⟨e6, _⟩ := updateTaskRefStatus_ext s5 (jobKey jo) rj5 tasks1
+    rw [heq]
+    exact e6.timers _ _ (ef.timers _ _ htim)
+
+/-- … and so does the whole `sync` on the cached Job (started, not being deleted): the steps after
+the task stage keep every armed timer. -/
+theorem future_kill_timer_armed_sync (s : Sys) (jo : JobObj) (rjOut : Job) (k : Int)
+    (hst : isStarted jo.job = true) (hnd : isDeleted jo.job = false)
+    (hok : (syncJobTasks s jo jo.job).2 = some rjOut)
+    (hk : jo.job.killTimestamp = some k) (hlt : s.clock < k) :
+    TimerBy (sync s jo).1.q (jobKey jo) (dueAt s k) ∨
+    ∃ s1 rj1 tasks1, syncCreateTasks s jo jo.job (tasks0 s jo.job) = (s1, some (rj1, tasks1)) ∧
+      ∀ t ∈ tasks1, isTaskFinished t = false → t.deletionTimestamp = none →
+        ∃ c ∈ newCalls s (syncJobTasks s jo jo.job).1, IsPodDelete c false ∧ c.name = t.name := by
+  rcases future_kill_timer_armed s jo jo.job rjOut k hok hk hlt with h | h
+  · left
+    obtain ⟨l, e⟩ := sync_ext_after_tasks s jo
+    have hstage : syncTasksStage s jo = syncJobTasks s jo jo.job := by
+      unfold syncTasksStage; simp [hst, hnd]
+    rw [hstage] at e
+    exact e.timers _ _ h
+  · exact Or.inr h
 
 /-- a running Job in a steady state with a kill timestamp at 200 s -/
 private def futureKillSys (clk : Int) : Sys :=
@@ -196,21 +277,26 @@ private def futureKillSys (clk : Int) : Sys :=
   { clock := clk, rv := 5, d := { hash := "d" }, job := some ⟨"job", "u", j, true, 1⟩,
     jobCache := some ⟨"job", "u", j, true, 1⟩, pods := [runningPod], podCache := [runningPod] }
 
-/-- **Witness for suspected defect F5** (`future_kill_no_timer_witness`): `future_kill_timer` is
-false.  Running Job with one live task, `spec.killTimestamp` = 200 s, steady state.  A pass at
-100 s (key queued, e.g. by the update that set the kill timestamp) issues no call and arms NO
-timer; the queue is left completely empty.  At 300 s — 100 s past the kill timestamp — the worker
-is idle and the pod is still running, not being deleted.  Only an unrelated event or the informer
-resync triggers the kill: after `resync` the next pass issues the delete. -/
-theorem future_kill_no_timer_witness :
+/-- **`kill_eventually_without_resync`** (regression form of the former witness
+`future_kill_no_timer_witness` for defect F5, same concrete state).  Running Job with one live
+task, `spec.killTimestamp` = 200 s, steady state.  A pass at 100 s (key queued, e.g. by the update
+that set the kill timestamp) issues no call and now ARMS A TIMER for 200 s — it is the only thing
+left in the queue.  One nanosecond before 200 s the worker is still idle; at 200 s, and at 300 s,
+the timer has fired: the worker runs a pass that deletes the pod (graceful delete, deletion
+timestamp set) — with no event and NO resync in between.  (Before the repair the queue was left
+empty and the worker stayed idle at 300 s with the pod running.) -/
+theorem kill_eventually_without_resync :
     let s0 : Sys := { futureKillSys (sec 100) with q := ({} : WQ).add "ns/job" }
     let s1 := (work s0).1
     (work s0).2 = "ok" ∧ s1.calls = [] ∧
-    s1.q.queue = [] ∧ s1.q.delayed = [] ∧ s1.q.dirty = [] ∧ s1.jobEvs.length = 0 ∧ s1.podEvs.length = 0 ∧
-    (work { s1 with clock := sec 300 }).2 = "idle" ∧
-    (work { s1 with clock := sec 300 }).1.pods.map (fun p => (p.pod.name, p.pod.deletionTimestamp)) = [("job-d-0", none)] ∧
-    ((work (resync { s1 with clock := sec 300 })).1.calls.map brief).head? = some ("delete", "pods", "job-d-0", "ok", false) := by
-  decide
+    s1.q.queue = [] ∧ s1.q.delayed = [("ns/job", sec 200)] ∧ s1.q.dirty = [] ∧ s1.jobEvs.length = 0 ∧ s1.podEvs.length = 0 ∧
+    (work { s1 with clock := sec 200 - 1 }).2 = "idle" ∧
+    (work { s1 with clock := sec 200 }).2 = "ok" ∧
+    (work { s1 with clock := sec 200 }).1.calls.map brief = [("delete", "pods", "job-d-0", "ok", false), ("update", "jobs", "job", "ok", false)] ∧
+    (work { s1 with clock := sec 300 }).2 = "ok" ∧
+    ((work { s1 with clock := sec 300 }).1.calls.map brief).head? = some ("delete", "pods", "job-d-0", "ok", false) ∧
+    (work { s1 with clock := sec 300 }).1.pods.map (fun p => (p.pod.name, p.pod.deletionTimestamp)) = [("job-d-0", some (sec 300))] := by
+  refine ⟨?_, ?_, ?_, ?_, ?_, ?_, ?_, ?_, ?_, ?_, ?_, ?_, ?_⟩ <;> decide
 
 -- ================================================================ creation stops
 
@@ -466,19 +552,76 @@ example :
     (syncJobStatusFromTaskRefs s "ns/job" (finishedJob (some 3600))).1.q.delayed = [("ns/job", sec 3650)] ∧
     (sync s ⟨"job", "u", finishedJob (some 3600), true, 1⟩).1.q.delayed = [("ns/job", sec 3650)] := by decide
 
-/-- … and NOT otherwise.  In particular when only the controller-level default
-(`defaultTTLSecondsAfterFinished`) applies — job-level value unset — the system state is returned
-untouched: no timer, although `handleTTL` uses the default as the effective TTL
-(`Props/C13.ttl_effective`).  Suspected defect F6. -/
+/-- … and `syncJobStatusFromTaskRefs` does NOT arm it otherwise.  In particular when only the
+controller-level default (`defaultTTLSecondsAfterFinished`) applies — job-level value unset — it
+returns the system state untouched, although `handleTTL` uses the default as the effective TTL
+(`Props/C13.ttl_effective`).  This was defect F6; since its repair the timer for the EFFECTIVE TTL
+is armed by the TTL step itself (`ttl_timer_armed_effective` below). -/
 theorem ttl_timer_not_armed_for_config_default (s : Sys) (key : String) (rj : Job)
     (h : rj.ttlSecondsAfterFinished = none) :
     (syncJobStatusFromTaskRefs s key rj).1 = s :=
   syncJobStatus_unarmed s key rj (Or.inl h)
 
-/-- the TTL step itself never arms a timer either -/
-theorem ttl_step_arms_no_timer (s : Sys) (jo : JobObj) (rj : Job) : (handleTTL s jo rj).1.q = s.q := by
-  obtain ⟨_, _, hq, _⟩ := handleTTL_ext s jo rj
-  exact hq
+/-- **`ttl_timer_armed_effective`** (repair of F6; `ttl_step_arms_no_timer`, which said that the
+TTL step never touches the work queue, was true of the code before it and is false now).  TTL
+step on a Job that is finished, not being deleted and NOT yet expired: no call, and a timer for
+the Job's key is armed at `finish + TTL` (`dueAt`) where TTL is the EFFECTIVE value
+`getTTLAfterFinished`: the job-level `ttlSecondsAfterFinished` if set, else the controller default
+`defaultTTLSecondsAfterFinished`, else 0. -/
+theorem ttl_timer_armed_effective (s : Sys) (jo : JobObj) (rj : Job) (fin : CondFinished)
+    (hf : rj.status.condition.finished = some fin) (hd : isDeleted rj = false)
+    (hne : s.clock < fin.finishTimestamp.getD zeroTime + getTTLAfterFinished rj s.cfg) :
+    handleTTL s jo rj =
+      (enqueueAfter s (jobKey jo) (fin.finishTimestamp.getD zeroTime + getTTLAfterFinished rj s.cfg), true) ∧
+    newCalls s (handleTTL s jo rj).1 = [] ∧
+    TimerBy (handleTTL s jo rj).1.q (jobKey jo)
+      (dueAt s (fin.finishTimestamp.getD zeroTime + getTTLAfterFinished rj s.cfg)) ∧
+    getTTLAfterFinished rj s.cfg =
+      secs (match rj.ttlSecondsAfterFinished with
+            | some t => t
+            | none => match s.cfg.defaultTTLSecondsAfterFinished with
+              | some d => d
+              | none => 0) := by
+  obtain ⟨_, _, ⟨harm, _⟩, _⟩ := handleTTL_ext s jo rj
+  have h := harm fin hf hd hne
+  refine ⟨h, ?_, ?_, ?_⟩
+  · rw [h]; exact (enqueueAfter_ext s _ _).newCalls
+  · rw [h]; exact enqueueAfter_timer s _ _
+  · unfold getTTLAfterFinished
+    cases rj.ttlSecondsAfterFinished <;> cases s.cfg.defaultTTLSecondsAfterFinished <;> rfl
+
+/-- in every other case (being deleted, not finished, or expired) the TTL step leaves the queue
+as it was -/
+theorem ttl_step_no_timer_otherwise (s : Sys) (jo : JobObj) (rj : Job)
+    (h : isDeleted rj = true ∨ rj.status.condition.finished = none ∨
+      ∃ fin, rj.status.condition.finished = some fin ∧
+        ¬ (fin.finishTimestamp.getD zeroTime + getTTLAfterFinished rj s.cfg > s.clock)) :
+    (handleTTL s jo rj).1.q = s.q := by
+  obtain ⟨_, _, ⟨_, hq⟩, _⟩ := handleTTL_ext s jo rj
+  exact hq h
+
+/-- Pass level: whenever `sync` reaches the TTL step with a Job (`rj2`: the Job after the task
+stage with its status recomputed) that is finished, not being deleted and not yet expired, the
+state `sync` returns holds a timer for the Job's key at `finish + effective TTL` or sooner —
+whatever the finalizer step did afterwards and whatever timers were armed before. -/
+theorem ttl_timer_armed_effective_sync (s : Sys) (jo : JobObj) (rj1 : Job) (fin : CondFinished)
+    (h1 : (syncTasksStage s jo).2 = some rj1)
+    (hf : (syncJobStatusFromTaskRefs (syncTasksStage s jo).1 (jobKey jo) rj1).2.status.condition.finished = some fin)
+    (hd : isDeleted (syncJobStatusFromTaskRefs (syncTasksStage s jo).1 (jobKey jo) rj1).2 = false)
+    (hne : s.clock < fin.finishTimestamp.getD zeroTime +
+      getTTLAfterFinished (syncJobStatusFromTaskRefs (syncTasksStage s jo).1 (jobKey jo) rj1).2 s.cfg) :
+    TimerBy (sync s jo).1.q (jobKey jo)
+      (dueAt s (fin.finishTimestamp.getD zeroTime +
+        getTTLAfterFinished (syncJobStatusFromTaskRefs (syncTasksStage s jo).1 (jobKey jo) rj1).2 s.cfg)) := by
+  obtain ⟨⟨l1, e1⟩, _⟩ := syncTasksStage_ext s jo
+  obtain ⟨e2, _⟩ := syncJobStatus_ext (syncTasksStage s jo).1 (jobKey jo) rj1
+  have e02 := e1.trans e2
+  obtain ⟨l, e⟩ := sync_ext_after_ttl s jo rj1 h1
+  have h := (ttl_timer_armed_effective (syncJobStatusFromTaskRefs (syncTasksStage s jo).1 (jobKey jo) rj1).1 jo
+    (syncJobStatusFromTaskRefs (syncTasksStage s jo).1 (jobKey jo) rj1).2 fin hf hd
+    (by rw [e02.clock, e02.cfg]; exact hne)).2.2.1
+  rw [dueAt_of_ext e02, e02.cfg] at h
+  exact e.timers _ _ h
 
 /-- the same finished Job in a steady state (cached status = computed status, nothing queued,
 no event in flight), TTL only from the controller default 3600 s -/
@@ -487,21 +630,32 @@ private def ttlDefaultSys (clk : Int) : Sys :=
   { clock := clk, rv := 5, d := { hash := "d" }, cfg := { defaultTTLSecondsAfterFinished := some 3600 },
     job := some ⟨"job", "u", j, true, 1⟩, jobCache := some ⟨"job", "u", j, true, 1⟩ }
 
-/-- **Witness for suspected defect F6** (`ttl_timer_not_armed_for_config_default_witness`).
-Finished Job (finish time 50 s), `spec.ttlSecondsAfterFinished` unset, controller default TTL
-3600 s, so the effective TTL deadline is 3650 s.  A pass at 100 s (key queued) issues no call and
-arms NO timer: the queue is left completely empty.  At 4000 s — 350 s past the deadline — the
-worker is idle and the Job is still there: nothing brings the key back.  Only an unrelated event
-or the informer resync does: after `resync` the very next pass deletes the Job.  With the
-job-level value set the timer IS armed (previous example). -/
-theorem ttl_timer_not_armed_for_config_default_witness :
+/-- `ttl_timer_armed_effective`: TTL only from the controller default 3600 s, finished at 50 s: the
+TTL step at 100 s arms the timer for 3650 s. -/
+example :
+    let s := ttlDefaultSys (sec 100)
+    (s.jobCache.map (fun jo => (handleTTL s jo jo.job).1.q.delayed)) = some [("ns/job", sec 3650)] := by decide
+
+/-- **`ttl_eventually_without_resync`** (regression form of the former witness
+`ttl_timer_not_armed_for_config_default_witness` for defect F6, same concrete state).  Finished
+Job (finish time 50 s), `spec.ttlSecondsAfterFinished` unset, controller default TTL 3600 s, so
+the effective TTL deadline is 3650 s.  A pass at 100 s (key queued) issues no call and now ARMS A
+TIMER for 3650 s — the only thing left in the queue.  One nanosecond before 3650 s the worker is
+idle and the Job is there; at 3650 s, and at 4000 s, the timer has fired and the pass deletes the
+Job — with no event and NO resync in between.  (Before the repair the queue was left empty and at
+4000 s the worker was idle with the Job still there.) -/
+theorem ttl_eventually_without_resync :
     let s0 : Sys := { ttlDefaultSys (sec 100) with q := ({} : WQ).add "ns/job" }
     let s1 := (work s0).1
     getTTLAfterFinished (finishedJob none) s0.cfg = sec 3600 ∧
     (work s0).2 = "ok" ∧ s1.calls = [] ∧
-    s1.q.queue = [] ∧ s1.q.delayed = [] ∧ s1.q.dirty = [] ∧ s1.jobEvs.length = 0 ∧ s1.podEvs.length = 0 ∧
-    (work { s1 with clock := sec 4000 }).2 = "idle" ∧ (work { s1 with clock := sec 4000 }).1.job.isSome = true ∧
-    ((work (resync { s1 with clock := sec 4000 })).1.calls.map brief).head? = some ("delete", "jobs", "job", "ok", false) := by
-  decide
+    s1.q.queue = [] ∧ s1.q.delayed = [("ns/job", sec 3650)] ∧ s1.q.dirty = [] ∧ s1.jobEvs.length = 0 ∧ s1.podEvs.length = 0 ∧
+    (work { s1 with clock := sec 3650 - 1 }).2 = "idle" ∧ (work { s1 with clock := sec 3650 - 1 }).1.job.isSome = true ∧
+    (work { s1 with clock := sec 3650 }).2 = "ok" ∧
+    ((work { s1 with clock := sec 3650 }).1.calls.map brief).head? = some ("delete", "jobs", "job", "ok", false) ∧
+    (work { s1 with clock := sec 4000 }).2 = "ok" ∧
+    ((work { s1 with clock := sec 4000 }).1.calls.map brief).head? = some ("delete", "jobs", "job", "ok", false) ∧
+    ((work { s1 with clock := sec 4000 }).1.job.map (fun j => j.job.deletionTimestamp)) = some (some (sec 4000)) := by
+  refine ⟨?_, ?_, ?_, ?_, ?_, ?_, ?_, ?_, ?_, ?_, ?_, ?_, ?_, ?_, ?_⟩ <;> decide
 
 end Furiko.Props.C12Plan
